@@ -186,6 +186,7 @@ ssize_t __wrap_sendto(int fd, const void *buf, size_t len, int flags, const stru
 	Addr dst = Addr::from_sockaddr(sa, alen);
 	if (!dst.fam) { errno = EDESTADDRREQ; S->count("sendto.noaddr"); return -1; }
 	if (len > 65507) { errno = EMSGSIZE; return -1; }
+	if (dst.fam != s->fam) { errno = EAFNOSUPPORT; S->count("sendto.eafnosupport"); return -1; }   // as the kernel does for a v4 socket given a sockaddr_in6
 	if (!s->bound) {
 		struct sockaddr_storage ss; Addr any; any.fam = s->fam;
 		socklen_t l = any.to_sockaddr(&ss);
@@ -232,7 +233,7 @@ ssize_t __wrap_recvfrom(int fd, void *buf, size_t cap, int flags, struct sockadd
 	residue_fill(buf, cap);
 	if (!pop_dgram(s, d)) { errno = EAGAIN; return -1; }
 	size_t n = d.data.size() < cap ? d.data.size() : cap;
-	memcpy(buf, d.data.data(), n);
+	if (n) memcpy(buf, d.data.data(), n);
 	if (sa && alen) {
 		struct sockaddr_storage ss; socklen_t l = d.src.to_sockaddr(&ss);
 		if (l > *alen) l = *alen;
@@ -259,7 +260,7 @@ ssize_t __wrap_recvmsg(int fd, struct msghdr *msg, int flags)
 	if (buf) residue_fill(buf, cap);
 	if (!pop_dgram(s, d)) { errno = EAGAIN; return -1; }
 	size_t n = d.data.size() < cap ? d.data.size() : cap;
-	if (buf) memcpy(buf, d.data.data(), n);
+	if (buf && n) memcpy(buf, d.data.data(), n);
 	if (msg->msg_name) {
 		struct sockaddr_storage ss; socklen_t l = d.src.to_sockaddr(&ss);
 		if (l > msg->msg_namelen) l = msg->msg_namelen;
@@ -329,7 +330,7 @@ ssize_t __wrap_read(int fd, void *buf, size_t n)
 	Bytes p = std::move(u->inq.front());
 	u->inq.pop_front();
 	size_t c = p.size() < n ? p.size() : n;
-	memcpy(buf, p.data(), c);
+	if (c) memcpy(buf, p.data(), c);
 	S->tracef("TUNREAD %s len=%zu", u->owner->name.c_str(), c);
 	S->fp_mix_str("tunr:" + u->owner->name); S->fp_mix(p.data(), c);
 	for (auto m : S->monitors) m->on_tun_read(*u->owner, p);
